@@ -197,7 +197,7 @@ class try_parser_escape:
 
     name = "date._DateLocaleParser._try_parser/no-escape"
     func = "dateparser.date._DateLocaleParser._try_parser"
-    props = ["C02"]
+    props = ["C02", "C03"]
 
     @classmethod
     def cases(cls, thorough=False):
